@@ -240,6 +240,21 @@ func run(dec string, in []byte, class string) resp {
 			o = vh.ResErr(0)
 		}
 		out.Add(fmt.Sprintf("C %s %s %s %d", c, vh.Bytes(in), o, cls), dec+"/"+class, nontrivial, desc)
+	} else if strings.HasPrefix(dec, "b64:") && r.Class != "hang" {
+		o := "Panic"
+		switch r.Class {
+		case "ok":
+			o = vh.ResOk(digestTerm(r.Digest))
+		case "err":
+			o = vh.ResErr(r.Code)
+		case "dead":
+			o = vh.ResErr(0)
+		}
+		d := vh.ResErr(99) // base64.CorruptInputError
+		if b, ok := stdB64(in); ok {
+			d = vh.ResOk(vh.Bytes(b))
+		}
+		out.Add(fmt.Sprintf("CB64 %s %s %s %s %d", dec[4:], vh.Bytes(in), d, o, cls), dec+"/"+class, nontrivial, desc)
 	} else {
 		out.Count(dec+"/"+class, k, nontrivial)
 	}
